@@ -3,6 +3,7 @@ package harness
 import (
 	"context"
 	"runtime"
+	"sync"
 	"errors"
 	"fmt"
 	"log/slog"
@@ -179,6 +180,7 @@ type Runtime struct {
 	userParams wire.Parameters
 	paramsCopy map[string]string
 	closerEv   [][]Event
+	closerMu   []*sync.Mutex // one per Close caller: orders its event log before the reader, and nothing else
 	closerTask []int
 	Panics     []string
 	lockDead   string
@@ -361,6 +363,7 @@ type Result struct {
 	HoldsForced   int
 	Accepts       int
 	BuildErr      string
+	InCmd         []bool     // E2: per task, inside an admitted command when the run ended
 	LockDead      string     // E1: a connection blocked forever on a library mutex (instrumented Lock site)
 	Points        [][]string // E2: schedule points seen per task (task 0 = accept loop, then connections, then closers)
 	NConns        int
@@ -487,6 +490,7 @@ func RunScheduled(c *Case) *Result {
 	for i := range closers {
 		rt.closerTask = append(rt.closerTask, rt.K.AddTask(fmt.Sprintf("closer%d", i)))
 		rt.closerEv = append(rt.closerEv, nil)
+		rt.closerMu = append(rt.closerMu, &sync.Mutex{})
 	}
 	clientTask := map[int]int{}
 	for i, cs := range rt.Conns {
@@ -518,22 +522,27 @@ func RunScheduled(c *Case) *Result {
 		i, cl := i, cl
 		task := rt.closerTask[i]
 		go func() {
+			note := func(k, v string) {
+				rt.closerMu[i].Lock()
+				rt.closerEv[i] = append(rt.closerEv[i], Event{Seq: rt.K.Seq(), K: k, S: v})
+				rt.closerMu[i].Unlock()
+			}
 			defer func() {
 				if r := recover(); r != nil {
-					rt.closerEv[i] = append(rt.closerEv[i], Event{Seq: rt.K.Seq(), K: "panic", S: fmt.Sprint(r)})
+					note("panic", fmt.Sprint(r))
 				}
 			}()
 			rt.K.Yield(task, "closer.start")
 			for n := 0; n < cl.Calls; n++ {
-				rt.closerEv[i] = append(rt.closerEv[i], Event{Seq: rt.K.Seq(), K: "close-call", S: fmt.Sprint(n)})
+				note("close-call", fmt.Sprint(n))
 				err := srv.Close()
 				if rt.isFrozen() {
 					return
 				}
-				rt.closerEv[i] = append(rt.closerEv[i], Event{Seq: rt.K.Seq(), K: "close-ret", S: errClass(err)})
+				note("close-ret", errClass(err))
 				rt.K.Yield(task, "closer.returned")
 			}
-			rt.closerEv[i] = append(rt.closerEv[i], Event{Seq: rt.K.Seq(), K: "closer-exit"})
+			note("closer-exit", "")
 		}()
 	}
 	res.Outcome = rt.K.Run(nil)
@@ -545,12 +554,17 @@ func RunScheduled(c *Case) *Result {
 	res.Trace = rt.K.trace
 	res.Decisions = rt.K.decisions
 	res.Points = rt.K.SeenPoints()
+	res.InCmd = rt.K.InCommand()
 	res.NConns = len(rt.Conns)
 	res.LockWaits = rt.K.lockWaits
 	res.HoldsForced = rt.K.holdsForced
 	rt.setFrozen()
 	rt.K.KillAll()
-	res.CloserEvents = rt.closerEv
+	for i := range rt.closerEv {
+		rt.closerMu[i].Lock()
+		res.CloserEvents = append(res.CloserEvents, append([]Event(nil), rt.closerEv[i]...))
+		rt.closerMu[i].Unlock()
+	}
 	rt.teardown(res)
 	rt.finish(res)
 	return res
